@@ -4,9 +4,15 @@ open AcmedVerif.Props.C11
 #print axioms register_only_when_explicit
 #print axioms state_saved_before_use
 #print axioms state_saved_before_use_explicit
+#print axioms sync_order_keyFirst
 #print axioms sync_order_current
+#print axioms sync_order_current_partial
+#print axioms sync_order_current_full_is_false
+#print axioms sync_order_preFix
+#print axioms sync_order_at5ce05e3_is_false
 #print axioms sync_old_is_false
 #print axioms sync_converges
 #print axioms sync_one_per_item
+#print axioms sync_one_per_item_old_statement_is_false
 #print axioms sync_ca_in_line
 #print axioms sync_binding_old_is_false
